@@ -13,6 +13,9 @@ mod subcmds;
 mod types;
 mod utils;
 mod verify;
+#[cfg(feature = "verif")]
+#[allow(dead_code)]
+mod verif_hooks;
 
 use config::AppConfig;
 use env_logger::{Builder, Env, Target};
